@@ -560,6 +560,7 @@ func routingRules(c *core.Ctx, r *core.Report) {
 		}
 	})
 	found := map[string]bool{}
+	stateOwner, stateOf := map[string]string{}, map[string]string{}
 	for _, cs := range cases {
 		if cs.name == "" {
 			continue
@@ -596,7 +597,15 @@ func routingRules(c *core.Ctx, r *core.Report) {
 			continue
 		}
 		for f, in := range touched {
-			r.Check(strings.Contains(strings.ToLower(f), want[cs.name]), key, an.Pos(c, in), "case "+cs.name+" records into "+f, "case "+cs.name+" records into "+f+": the outcome is misclassified")
+			// the table Record → state: one state per outcome, no state shared by two outcomes; Snapshot/Total below must
+			// read the same table
+			if prev, dup := stateOwner[f]; dup && prev != cs.name {
+				r.Violation(key, an.Pos(c, in), "case %s records into %s, the state that case %s also records into: the two outcomes are merged", cs.name, f, prev)
+				continue
+			}
+			stateOwner[f] = cs.name
+			stateOf[cs.name] = f
+			r.OK(key, an.Pos(c, in), "case %s records into %s", cs.name, f)
 		}
 	}
 	for name := range want {
@@ -675,20 +684,45 @@ func routingRules(c *core.Ctx, r *core.Report) {
 				d := an.D().Of(v)
 				lk := strings.ToLower(k)
 				key := name + "#" + k
+				// the Stats field the value is read from
+				srcField := func(v ssa.Value) (string, int, bool) {
+					switch x := an.Strip(v).(type) {
+					case *ssa.Extract:
+						call, ok := x.Tuple.(*ssa.Call)
+						if !ok || !drain(an.Callee(call)) {
+							return "", 0, false
+						}
+						fa, ok := an.Terminal(call.Call.Args[0]).(*ssa.FieldAddr)
+						if !ok || !an.IsNamed(fa.X.Type(), progressPkg, "Stats") {
+							return "", 0, false
+						}
+						return an.FieldOfAddr(fa).Name(), x.Index, true
+					case *ssa.Call:
+						if t := an.Callee(x); t != nil && t.Pkg != nil && t.Pkg.Pkg.Path() == "sync/atomic" && t.Name() == "Load" {
+							if fa, ok := x.Call.Args[0].(*ssa.FieldAddr); ok && an.IsNamed(fa.X.Type(), progressPkg, "Stats") {
+								return an.FieldOfAddr(fa).Name(), -1, true
+							}
+						}
+					}
+					return "", 0, false
+				}
 				switch {
 				case strings.Contains(lk, "successful") || strings.Contains(lk, "failed"):
-					wantState := "successfulIterationDurations"
+					outcome := "SuccessResult"
 					if strings.Contains(lk, "failed") {
-						wantState = "failedIterationDurations"
+						outcome = "FailedResult"
 					}
-					idx := "#1"
+					wantState := stateOf[outcome]
+					wantIdx := 1
 					if strings.Contains(lk, "forperiod") {
-						idx = "#0"
+						wantIdx = 0
 					}
-					ok := strings.Contains(d, "CollectLifetime($s."+wantState+")") && strings.HasSuffix(d, idx)
-					r.Check(ok, key, an.Pos(c, ret), k+" ← "+d, k+" is fed from "+d+", expected the "+map[string]string{"#0": "period", "#1": "lifetime"}[idx]+" result of draining "+wantState)
+					f, idx, ok := srcField(v)
+					ok = ok && wantState != "" && f == wantState && idx == wantIdx
+					r.Check(ok, key, an.Pos(c, ret), k+" ← "+d, k+" is fed from "+d+", expected the "+map[int]string{0: "period", 1: "lifetime"}[wantIdx]+" result of draining "+wantState+" (the state "+outcome+" is recorded into)")
 				case strings.Contains(lk, "dropped"):
-					r.Check(strings.Contains(d, "Load($s.droppedIterationCount)"), key, an.Pos(c, ret), k+" ← "+d, k+" is fed from "+d+", expected droppedIterationCount.Load()")
+					f, idx, ok := srcField(v)
+					r.Check(ok && idx == -1 && f == stateOf["DroppedResult"] && f != "", key, an.Pos(c, ret), k+" ← "+d, k+" is fed from "+d+", expected a Load of "+stateOf["DroppedResult"]+" (the counter DroppedResult is recorded into)")
 				}
 			}
 			for _, must := range []string{"SuccessfulIterationDurations", "FailedIterationDurations", "DroppedIterationCount"} {
